@@ -33,7 +33,10 @@ RULE = ("energy files: header box sampled completely in the quick tier already (
         "unbalanced quotes in skipped rows, ragged rows, '@' inside data, blank lines, other suffixes); grids: every buildable "
         "small FullGrid of a fixed sweep plus stub grids with arbitrary arrays and non-canonical sparse matrices (unsorted "
         "indices, duplicates, explicit zeros, csr/csc/coo, array/matrix, several dtypes) written through GridWriter, and random "
-        "histories of save/load calls on colliding paths with and without extensions. distinct by file content / by (grid, history); "
+        "histories of save/load calls on colliding paths with and without extensions. one EnergyReader object through histories of load_energy / load_single_energy_column with every returned frame / array "
+        "modified in place, the file rewritten (more / fewer rows) or path_energy re-pointed in between, for xvg and csv; every object "
+        "GridReader returns is modified in place and the unchanged file re-read by the same and by a new GridReader. "
+        "distinct by file content / by (grid, history); "
         "non-trivial = at least one data row with all columns, resp. at least one successful load")
 CHUNK = 120
 
@@ -260,6 +263,51 @@ def gen_box(rng, quick, h=None, extra=None, m=None, nrows=None):
     col = rng.choice(names) if rng.random() < 0.9 else rng.choice(["Potential energy", "time", "s0", ""])
     return {"kind": "xvg", "name": "e.xvg", "lines": hashes + ats + lines, "nl": rng.random() < 0.85, "col": col, "csv": True,
             "tag": "box", "box": {"h": h, "a": len(ats), "legends": legends, "rows": rows}}
+
+
+MUT_FRAME = ["shift", "sort", "nan", "drop", "reverse", "none"]
+MUT_ARR = ["shift", "sort", "nan", "reverse", "none"]
+
+
+def _gen_rows(rng, m, nrows):
+    colstyle = [rng.choice(STYLES) for _ in range(m + 1)] if rng.random() < 0.5 else [rng.choice(STYLES)] * (m + 1)
+    rows, lines = [], []
+    for _ in range(nrows):
+        toks = [_token(rng, colstyle[j]) for j in range(m + 1)]
+        rows.append(toks)
+        lines.append(_data_line(rng, toks, False))
+    return rows, lines
+
+
+def add_session(rng, case):
+    """a history on ONE EnergyReader object: repeated load_energy / load_single_energy_column, every returned frame / array
+    modified in place by the caller, the file rewritten with other data (more / fewer rows) or path_energy re-pointed in between.
+    version 0 is the file of the case; case['session']['versions'][k-1] is version k (same header, other data lines)"""
+    b = case["box"]
+    m = len(b["legends"])
+    header = case["lines"][:b["h"] + b["a"]]
+    n0 = len(b["rows"])
+    versions = []
+    for _ in range(rng.randint(1, 2)):
+        n2 = rng.choice([n for n in (0, 1, 2, 3, 4, 6, 9, n0 + 1, n0 + 3, max(0, n0 - 1)) if n != n0])
+        rows, lines = _gen_rows(rng, m, n2)
+        versions.append({"lines": header + lines, "rows": rows, "nl": rng.random() < 0.85})
+    names = ["Time [ps]"] + b["legends"]
+
+    def query():
+        if rng.random() < 0.35:
+            return ["load", rng.choice(MUT_FRAME)]
+        return ["col", rng.choice(names), rng.choice(MUT_ARR)]
+
+    first = ["col", rng.choice(names), rng.choice(["shift", "sort", "nan"])] if rng.random() < 0.6 else ["load", rng.choice(["shift", "sort", "nan", "drop"])]
+    ops = [first, ["col", first[1], "none"] if first[0] == "col" and rng.random() < 0.5 else query(), query()]
+    ops.append([rng.choice(["rewrite", "rewrite", "repoint"]), rng.randint(1, len(versions))])
+    ops += [query(), query()]
+    for _ in range(rng.randint(0, 4)):
+        ops.append(query() if rng.random() < 0.7 else [rng.choice(["rewrite", "repoint"]), rng.randint(0, len(versions))])
+    ops.append(query())
+    case["session"] = {"target": rng.choice(["xvg", "xvg", "csv"]), "versions": versions, "ops": ops}
+    return case
 
 
 def gen_out_of_box(rng, quick):
@@ -500,7 +548,10 @@ def cases(ctx):
     n_box = 700 if quick else 5000
     n_out = 400 if quick else 2500
     for i in range(n_box):
-        yield gen_box(rng, quick)
+        c = gen_box(rng, quick)
+        if len(c["box"]["rows"]) <= 50 and rng.random() < (0.5 if quick else 0.7):
+            add_session(rng, c)
+        yield c
         if i % 2 == 0 and i // 2 < n_out:
             yield gen_out_of_box(rng, quick)
     # 2. grids
@@ -613,9 +664,95 @@ def impl_xvg(case):
                 out["csv"] = {"lines": clines, "table": _frame(t2), "index_name": None if t2.index.name is None else str(t2.index.name)}
             except Exception as e:
                 out["csv"] = {"err": core.errname(e), "msg": str(e)[:200]}
+        if case.get("session"):
+            out["session"] = _run_session(case, d)
         return out
     finally:
         shutil.rmtree(d, ignore_errors=True)
+
+
+def _mutate_frame(t, how):
+    """what a caller may do to the frame it got back: all in place"""
+    try:
+        if how == "shift":
+            t -= 1.5
+        elif how == "sort":
+            t.sort_values(by=list(t.columns)[-1], ascending=False, inplace=True)
+            t.reset_index(drop=True, inplace=True)
+        elif how == "nan":
+            t.iloc[:, :] = np.nan
+        elif how == "drop":
+            t.drop(index=t.index[:1], inplace=True)
+            t.rename(columns={list(t.columns)[-1]: "renamed"}, inplace=True)
+        elif how == "reverse":
+            t.iloc[:, :] = t.iloc[::-1].to_numpy()
+    except Exception:
+        pass
+
+
+def _mutate_array(a, how):
+    """what a caller may do to the column it got back (`e -= e.min()` before Boltzmann weighting, sorting, masking): in place"""
+    try:
+        if how == "shift":
+            a -= (a.min() - 1)
+        elif how == "sort":
+            a[::-1].sort()
+        elif how == "nan":
+            a[:] = np.nan if a.dtype.kind == "f" else 0
+        elif how == "reverse":
+            a[:] = a[::-1].copy()
+    except Exception:
+        pass
+
+
+def _run_session(case, d):
+    """one EnergyReader object through case['session']['ops']; every query is recorded together with the version of the file
+    that is on disk (and that path_energy points to) at that moment"""
+    from molgri.io import EnergyReader
+    sess = case["session"]
+    versions = [{"lines": case["lines"], "nl": case.get("nl", True)}] + sess["versions"]
+    csv = sess["target"] == "csv"
+
+    def write_version(k, path):
+        v = versions[k]
+        px = os.path.join(d, "version.xvg") if csv else path
+        with open(px, "w", encoding="utf-8", newline="\n") as f:
+            f.write("\n".join(v["lines"]) + ("\n" if v["lines"] and v.get("nl", True) else ""))
+        if csv:
+            EnergyReader(px).load_energy().to_csv(path)      # a fresh reader, used once
+
+    paths = [os.path.join(d, "session." + sess["target"]), os.path.join(d, "other_session." + sess["target"])]
+    cur, where = 0, 0
+    results = []
+    try:
+        with core.quiet():
+            write_version(0, paths[0])
+            reader = EnergyReader(paths[0])
+            for i, op in enumerate(sess["ops"]):
+                if op[0] == "rewrite":
+                    cur = op[1]
+                    write_version(cur, paths[where])
+                elif op[0] == "repoint":
+                    cur, where = op[1], 1 - where
+                    write_version(cur, paths[where])
+                    reader.path_energy = paths[where]
+                elif op[0] == "load":
+                    try:
+                        t = reader.load_energy()
+                        results.append({"step": i, "version": cur, "table": _frame(t)})
+                        _mutate_frame(t, op[1])
+                    except Exception as e:
+                        results.append({"step": i, "version": cur, "err": core.errname(e)})
+                else:
+                    try:
+                        a = reader.load_single_energy_column(op[1])
+                        results.append({"step": i, "version": cur, "name": op[1], "col": [_cell(v) for v in a.tolist()]})
+                        _mutate_array(a, op[2])
+                    except Exception as e:
+                        results.append({"step": i, "version": cur, "name": op[1], "err": core.errname(e)})
+    except Exception as e:
+        return {"target": sess["target"], "results": results, "crash": core.errname(e) + ": " + str(e)[:160]}
+    return {"target": sess["target"], "results": results}
 
 
 class StubGrid:
@@ -785,6 +922,70 @@ def _sparse_as_npz_sig(x):
     return tuple(parts)
 
 
+def _mutate_loaded(x, salt=0):
+    """what a caller may do to an object GridReader handed out (rescale borders, convert units of the grid columns, mask
+    entries): everything in place.  returns True if something was changed"""
+    from scipy import sparse
+    try:
+        if isinstance(x, np.lib.npyio.NpzFile):
+            return False
+        if sparse.issparse(x):
+            d = x.data
+            if d.size == 0:
+                return False
+            if d.dtype.kind == "b":
+                d[:] = ~d
+            elif salt % 2:
+                d *= 2
+                d += 1
+            else:
+                d[:] = 0
+                d[: max(1, d.size // 2)] = 3
+            for nm in ("indices", "row", "col"):
+                arr = getattr(x, nm, None)
+                if arr is not None and arr.size > 1:
+                    arr[:] = arr[::-1].copy()
+                    break
+            return True
+        if isinstance(x, np.ndarray):
+            if x.size == 0 or not x.flags.writeable:
+                return False
+            if x.dtype.kind == "b":
+                x[...] = ~x
+            elif x.ndim == 0:
+                x[...] = x + 1
+            elif x.ndim >= 2 and salt % 2:
+                x[..., :1] *= 10          # one column (nm -> angstrom)
+                x[:1] = 0
+                x[..., -1:] += 1
+            else:
+                x *= 2
+                x += 1
+            return True
+    except Exception:
+        return False
+    return False
+
+
+def _reread_after_mutation(load_name, path, got, want_sig, gr, kind, salt):
+    """modify the object a loader returned, then read the unchanged file again with the same and with a new GridReader;
+    both must equal what the writer wrote (signature taken from the writer's in-memory value) and a raw numpy / scipy read"""
+    from molgri.io import GridReader
+    from scipy import sparse
+    if not _mutate_loaded(got, salt):
+        return None
+    raw = _sig(np.load(path) if kind < 2 else sparse.load_npz(path))
+    for who, reader in (("the same GridReader", gr), ("a new GridReader", GridReader())):
+        again = getattr(reader, load_name)(path)
+        df = _diff(want_sig, _sig(again))
+        if df:
+            return f"after the caller modified the returned object in place, {who} reads the unchanged file differently: {df}"
+        if _sig(again) != raw:
+            return f"{who} and a raw numpy/scipy read of the same file differ: {_diff(raw, _sig(again))}"
+        _mutate_loaded(again, salt + 1)
+    return None
+
+
 def impl_grid(case):
     from molgri.io import GridReader
     gw = _writer(case["src"])
@@ -819,6 +1020,10 @@ def impl_grid(case):
                         df = _diff(ss[k], _sig(got))
                         if df:
                             problems.append({"method": SAVE[k], "round": rnd, "diff": df})
+                            continue
+                        df = _reread_after_mutation(LOAD[k], os.path.join(d, names[k]), got, ss[k], gr, k, rnd + k)
+                        if df:
+                            problems.append({"method": SAVE[k], "round": rnd, "diff": df, "reread": True})
             except Exception as e:
                 problems.append({"method": "exception", "round": rnd, "diff": core.errname(e) + ": " + str(e)[:160]})
         out["roundtrip"] = problems
@@ -852,6 +1057,7 @@ def impl_grid(case):
                     df = _diff(sigs[k], _sig(got))
                     if df:
                         hist_problems.append({"step": step, "method": meth, "diff": df})
+                    _mutate_loaded(got, step)          # the caller works on what it got
                 except Exception as e:
                     hist_problems.append({"step": step, "method": meth, "diff": "reader raised " + core.errname(e)})
             else:
@@ -866,6 +1072,7 @@ def impl_grid(case):
                         s = _sig(got)
                         ids = [i for i in range(5) if sigs[i] == s]
                         answers.append({"ok": {("array" if isinstance(got, np.ndarray) else "sparse"): ids}})
+                        _mutate_loaded(got, step)      # the caller works on what it got
                 except Exception as e:
                     answers.append({"err": core.errname(e)})
         out["answers"] = answers
@@ -893,6 +1100,10 @@ def model_ops(case, out):
         t = out["table"]
         ops.append({"op": "csvwrite", "names": t["names"], "rows": [[_cellstr(c) for c in row] for row in t["cells"]]})
         ops.append({"op": "energy", "path": "frame.csv", "lines": csv["lines"], "col": None})
+    sess = out.get("session") if isinstance(out, dict) else None
+    if sess and sess["target"] == "xvg":
+        for v in case["session"]["versions"]:
+            ops.append({"op": "energy", "path": "session.xvg", "lines": v["lines"], "col": None})
     return ops
 
 
@@ -938,6 +1149,46 @@ def cell_matches(tok, c, sign=False):
     return False, True
 
 
+def _cmp_xvg_frame(ctx, case, t, mt, pre="load_energy"):
+    """a frame returned by the implementation against the model's Table; returns the number of implicit index columns, or
+    None after reporting a disagreement"""
+    if t["names"] != mt["names"]:
+        ctx.corr(pre + "/column names", case, t["names"], mt["names"])
+        return None
+    lead = mt["lead"]
+    if len(t["cells"]) != len(mt["rows"]):
+        ctx.corr(pre + "/number of rows", case, len(t["cells"]), len(mt["rows"]))
+        return None
+    # index
+    if lead == 0:
+        if t["index"] != {"range": len(mt["rows"])}:
+            ctx.corr(pre + "/index", case, t["index"], {"range": len(mt["rows"])})
+            return None
+    else:
+        labs = t["index"].get("labels")
+        if labs is None or len(labs) != len(mt["rows"]):
+            ctx.corr(pre + "/implicit index", case, t["index"], {"lead": lead})
+            return None
+        for r, (lab, row) in enumerate(zip(labs, mt["rows"])):
+            if len(lab) != lead or not all(cell_matches(tok, c)[0] for tok, c in zip(row[:lead], lab)):
+                ctx.corr(pre + "/implicit index labels", case, {"row": r, "labels": lab}, row[:lead])
+                return None
+        ctx.branch("xvg:implicit_index")
+    for r, (irow, mrow) in enumerate(zip(t["cells"], mt["rows"])):
+        mrow = mrow[lead:]
+        if len(irow) != len(mrow):
+            ctx.corr(pre + "/row width", case, {"row": r, "cells": irow}, mrow)
+            return None
+        for j, (c, tok) in enumerate(zip(irow, mrow)):
+            ok, exact = cell_matches(tok, c)
+            if not ok:
+                ctx.corr(pre + "/cell", case, {"row": r, "col": j, "cell": c}, tok)
+                return None
+            if not exact:   # cannot happen any more: every comparison is exact
+                ctx.branch("xvg:cell_compared_with_tolerance")
+    return lead
+
+
 def compare(ctx, case, out, mouts):
     if case["kind"] == "grid":
         return compare_grid(ctx, case, out, mouts)
@@ -960,40 +1211,9 @@ def compare(ctx, case, out, mouts):
     if mt.get("kind") != "xvg":
         ctx.corr("load_energy/branch", case, "xvg table", mt.get("kind"))
         return
-    if t["names"] != mt["names"]:
-        ctx.corr("load_energy/column names", case, t["names"], mt["names"])
+    lead = _cmp_xvg_frame(ctx, case, t, mt)
+    if lead is None:
         return
-    lead = mt["lead"]
-    if len(t["cells"]) != len(mt["rows"]):
-        ctx.corr("load_energy/number of rows", case, len(t["cells"]), len(mt["rows"]))
-        return
-    # index
-    if lead == 0:
-        if t["index"] != {"range": len(mt["rows"])}:
-            ctx.corr("load_energy/index", case, t["index"], {"range": len(mt["rows"])})
-            return
-    else:
-        labs = t["index"].get("labels")
-        if labs is None or len(labs) != len(mt["rows"]):
-            ctx.corr("load_energy/implicit index", case, t["index"], {"lead": lead})
-            return
-        for r, (lab, row) in enumerate(zip(labs, mt["rows"])):
-            if len(lab) != lead or not all(cell_matches(tok, c)[0] for tok, c in zip(row[:lead], lab)):
-                ctx.corr("load_energy/implicit index labels", case, {"row": r, "labels": lab}, row[:lead])
-                return
-        ctx.branch("xvg:implicit_index")
-    for r, (irow, mrow) in enumerate(zip(t["cells"], mt["rows"])):
-        mrow = mrow[lead:]
-        if len(irow) != len(mrow):
-            ctx.corr("load_energy/row width", case, {"row": r, "cells": irow}, mrow)
-            return
-        for j, (c, tok) in enumerate(zip(irow, mrow)):
-            ok, exact = cell_matches(tok, c)
-            if not ok:
-                ctx.corr("load_energy/cell", case, {"row": r, "col": j, "cell": c}, tok)
-                return
-            if not exact:   # cannot happen any more: every comparison is exact
-                ctx.branch("xvg:cell_compared_with_tolerance")
     # load_single_energy_column
     col = case.get("col")
     if col is not None:
@@ -1009,7 +1229,9 @@ def compare(ctx, case, out, mouts):
                 ctx.corr("load_single_energy_column/values", case, ic["ok"], mc["ok"])
     # csv
     csv = out.get("csv")
-    if csv and len(mouts) == 3:
+    sess = out.get("session")
+    nsess = len(case["session"]["versions"]) if sess and sess["target"] == "xvg" else 0
+    if csv and len(mouts) - nsess == 3:
         if "err" in csv:
             ctx.branch("csv:impl_error:" + csv["err"])
         else:
@@ -1024,6 +1246,29 @@ def compare(ctx, case, out, mouts):
                     ctx.corr("read_csv/outcome", case, csv["table"]["shape"], mr)
             elif _cmp_csv(ctx, case, csv["table"], mr["ok"]):
                 ctx.branch("csv:model_agrees")
+    # one reader object, many questions: every answer against the model's table of the file as it is at that moment
+    if nsess:
+        tables = [mt] + [mo.get("ok") for mo in mouts[len(mouts) - nsess:]]
+        for res in sess["results"]:
+            mtk = tables[res["version"]]
+            if mtk is None or mtk.get("kind") != "xvg":
+                ctx.corr("reader history/model", case, res.get("err"), mtk)
+                break
+            if "err" in res:
+                if not ("name" in res and res["name"] not in mtk["names"] and res["err"] == "KeyError"):
+                    ctx.corr("reader history/outcome", case, res, "ok")
+                    break
+            elif "table" in res:
+                if _cmp_xvg_frame(ctx, case, res["table"], mtk, pre=f"reader history step {res['step']} load_energy") is None:
+                    break
+            else:
+                jn = mtk["names"].index(res["name"]) if res["name"] in mtk["names"] else None
+                want = None if jn is None else [row[mtk["lead"] + jn] for row in mtk["rows"]]
+                if want is None or len(want) != len(res["col"]) or not all(cell_matches(tok, c)[0] for tok, c in zip(want, res["col"])):
+                    ctx.corr(f"reader history step {res['step']} load_single_energy_column", case, res["col"], want)
+                    break
+        else:
+            ctx.branch("session:model_agrees")
     # evidence
     n = len(t["cells"])
     if n and lead == 0 and all(c is not None for row in t["cells"] for c in row):
@@ -1097,13 +1342,85 @@ def compare_grid(ctx, case, out, mouts):
 # ------------------------------------------------------------------------------------------------------------------
 # failing-input search: the statement of C20 on the implementation
 # ------------------------------------------------------------------------------------------------------------------
+def _table_problem(names, rows, t, label_index=False):
+    """the statement of C20 for one returned frame: `names` = 'Time [ps]' ++ legends, `rows` = the tokens of the data lines.
+    returns None or (key, what, expected, observed).  label_index: a frame read from csv carries the labels 0..n-1 as Index"""
+    if t["names"] != names:
+        return ("xvg_columns", "columns are not 'Time [ps]' followed by the legends in legend order", names, t["names"])
+    if t["shape"] != [len(rows), len(names)] or len(t["cells"]) != len(rows):
+        return ("xvg_row_count", "not one row per data line", [len(rows), len(names)], t["shape"])
+    idx_ok = t["index"] == {"range": len(rows)}
+    if not idx_ok and label_index and t["index"].get("labels") is not None:
+        idx_ok = [l for l in t["index"]["labels"]] == [[["i", k]] for k in range(len(rows))]
+    if not idx_ok:
+        return ("xvg_index", "rows are not labelled 0..n-1 (a data column was taken as index)", {"range": len(rows)}, t["index"])
+    for r, (toks, cells) in enumerate(zip(rows, t["cells"])):
+        for j, (tok, c) in enumerate(zip(toks, cells)):
+            ok, _ = cell_matches(tok, c, sign=True)
+            mm = re.match(r"^\+?(\d{20,})(\.\d*)?$", tok)
+            if ok and c is not None and c[0] == "s" and mm and int(mm.group(1)) >= 2 ** 64:
+                return ("xvg_long_fixed_point_token_read_as_text", f"row {r}, column {names[j]!r}: a non-negative number written in "
+                        "positional notation with an integer part of 2^64 or more is returned as text", float(tok), c)
+            if not ok or c is None or c[0] not in ("f", "i"):
+                return ("xvg_cell", f"row {r}, column {names[j]!r}: value differs from the number written in data line {r}", tok, c)
+    return None
+
+
+def _col_problem(rows, j, nm, cells):
+    if len(cells) != len(rows) or not all(cell_matches(rows[r][j], cells[r], sign=True)[0] for r in range(len(rows))):
+        return ("single_column_order", f"load_single_energy_column({nm!r}) is not column {j} in row order",
+                [rows[r][j] for r in range(len(rows))], cells)
+    return None
+
+
+def _session_oracle(ctx, case, out, names):
+    """S for histories on one reader object: after every step the answer must be what the file says *now*"""
+    sess = out.get("session")
+    if not sess:
+        return False
+    spec = case["session"]
+    vrows = [case["box"]["rows"]] + [v["rows"] for v in spec["versions"]]
+    if "crash" in sess:
+        ctx.fail("C20:reader_history_exception", "the history on one EnergyReader crashed: " + sess["crash"], case, None, sess["crash"])
+        return True
+    ops = spec["ops"]
+    for res in sess["results"]:
+        i = res["step"]
+        rows = vrows[res["version"]]
+        before = "; ".join("%s(%s)" % (o[0], ", ".join(map(str, o[1:]))) for o in ops[:i]) or "nothing"
+        ctxt = (f"one EnergyReader on a {sess['target']} file, step {i} {ops[i][0]}({ops[i][1]!r}) after [{before}] "
+                f"(each returned object modified in place as named; the file now holds version {res['version']} with {len(rows)} data lines): ")
+        if "err" in res:
+            if "name" in res and res["name"] not in names and res["err"] == "KeyError":
+                continue
+            ctx.fail("C20:reader_history_exception", ctxt + "raised " + res["err"], case, "an answer", res["err"])
+            return True
+        if "table" in res:
+            prob = _table_problem(names, rows, res["table"], label_index=sess["target"] == "csv")
+        else:
+            if res["name"] not in names:
+                prob = ("single_column_order", "a column that is not in the file was returned", "KeyError", res["col"])
+            else:
+                prob = _col_problem(rows, names.index(res["name"]), res["name"], res["col"])
+        if prob:
+            ctx.fail("C20:reader_history:" + prob[0], ctxt + prob[1], case, prob[2], prob[3])
+            return True
+    ctx.branch("session:oracle_ok:" + sess["target"])
+    ctx.branch("session:queries", len(sess["results"]))
+    return False
+
+
 def oracle(ctx, case, out):
     if case["kind"] == "grid":
         if "unbuildable" in out:
             return
         for p in out.get("roundtrip", [])[:1]:
-            ctx.fail("C20:grid_roundtrip:" + p["method"], f"{p['method']} then its reader does not return the written value: {p['diff']}",
-                     case, "identical class/format/shape/dtype/storage arrays", p)
+            if p.get("reread"):
+                ctx.fail("C20:grid_reread_after_mutation:" + p["method"], f"file written by {p['method']}: {p['diff']}",
+                         case, "identical to what the writer wrote", p)
+            else:
+                ctx.fail("C20:grid_roundtrip:" + p["method"], f"{p['method']} then its reader does not return the written value: {p['diff']}",
+                         case, "identical class/format/shape/dtype/storage arrays", p)
         for p in out.get("history_problems", [])[:1]:
             ctx.fail("C20:grid_history:" + p["method"], f"step {p['step']} ({p['method']}): file read back differs from what was written: {p['diff']}",
                      case, "identical", p)
@@ -1123,26 +1440,10 @@ def oracle(ctx, case, out):
             ctx.fail("C20:xvg_exception", f"load_energy raised {out['err']} on a file inside the box", case, names, out)
         return
     t = out["table"]
-    if t["names"] != names:
-        ctx.fail("C20:xvg_columns", "columns are not 'Time [ps]' followed by the legends in legend order", case, names, t["names"])
+    prob = _table_problem(names, rows, t)
+    if prob:
+        ctx.fail("C20:" + prob[0], prob[1], case, prob[2], prob[3])
         return
-    if t["shape"] != [len(rows), len(names)] or len(t["cells"]) != len(rows):
-        ctx.fail("C20:xvg_row_count", "not one row per data line", case, [len(rows), len(names)], t["shape"])
-        return
-    if t["index"] != {"range": len(rows)}:
-        ctx.fail("C20:xvg_index", "rows are not labelled 0..n-1 (a data column was taken as index)", case, {"range": len(rows)}, t["index"])
-        return
-    for r, (toks, cells) in enumerate(zip(rows, t["cells"])):
-        for j, (tok, c) in enumerate(zip(toks, cells)):
-            ok, _ = cell_matches(tok, c, sign=True)
-            mm = re.match(r"^\+?(\d{20,})(\.\d*)?$", tok)
-            if ok and c is not None and c[0] == "s" and mm and int(mm.group(1)) >= 2 ** 64:
-                ctx.fail("C20:xvg_long_fixed_point_token_read_as_text", f"row {r}, column {names[j]!r}: a non-negative number written in "
-                         "positional notation with an integer part of 2^64 or more is returned as text", case, float(tok), c)
-                return
-            if not ok or c is None or c[0] not in ("f", "i"):
-                ctx.fail("C20:xvg_cell", f"row {r}, column {names[j]!r}: value differs from the number written in data line {r}", case, tok, c)
-                return
     for j, nm in enumerate(names):
         got = out["cols"].get(nm)
         want = [cells[j] for cells in t["cells"]]
@@ -1151,13 +1452,15 @@ def oracle(ctx, case, out):
         if got is None or "err" in got:
             ctx.fail("C20:single_column_exception", f"load_single_energy_column({nm!r}) failed", case, "column", got)
             return
-        if len(got["ok"]) != len(rows) or not all(cell_matches(rows[r][j], got["ok"][r], sign=True)[0] for r in range(len(rows))):
-            ctx.fail("C20:single_column_order", f"load_single_energy_column({nm!r}) is not column {j} in row order", case,
-                     [rows[r][j] for r in range(len(rows))], got["ok"])
+        prob = _col_problem(rows, j, nm, got["ok"])
+        if prob:
+            ctx.fail("C20:" + prob[0], prob[1], case, prob[2], prob[3])
             return
         if [(_numval(a)) for a in got["ok"]] != [(_numval(a)) for a in want]:
             ctx.fail("C20:single_column_vs_table", f"load_single_energy_column({nm!r}) differs from the table's column", case, want, got["ok"])
             return
+    if _session_oracle(ctx, case, out, names):
+        return
     csv = out.get("csv")
     if csv is None:
         return
